@@ -183,14 +183,14 @@ class WeightedQuadratic(BaseDatafit):
 
     def initialize_sparse(self, X_data, X_indptr, X_indices, y):
         n_features = len(X_indptr) - 1
-        self.Xty = np.zeros(n_features, dtype=X_data.dtype)
+        self.Xtwy = np.zeros(n_features, dtype=X_data.dtype)
 
         for j in range(n_features):
             xty = 0
             for idx in range(X_indptr[j], X_indptr[j + 1]):
                 xty += (X_data[idx] * self.sample_weights[X_indices[idx]]
                         * y[X_indices[idx]])
-            self.Xty[j] = xty
+            self.Xtwy[j] = xty
 
     def get_global_lipschitz(self, X, y):
         w_sum = self.sample_weights.sum()
@@ -212,7 +212,7 @@ class WeightedQuadratic(BaseDatafit):
         XjTXw = 0.
         for i in range(X_indptr[j], X_indptr[j + 1]):
             XjTXw += X_data[i] * self.sample_weights[X_indices[i]] * Xw[X_indices[i]]
-        return (XjTXw - self.Xty[j]) / self.sample_weights.sum()
+        return (XjTXw - self.Xtwy[j]) / self.sample_weights.sum()
 
     def gradient(self, X, y, Xw):
         return X.T @ (self.sample_weights * (Xw - y)) / self.sample_weights.sum()
@@ -232,7 +232,7 @@ class WeightedQuadratic(BaseDatafit):
             for i in range(X_indptr[j], X_indptr[j + 1]):
                 XjTXw += (X_data[i] * self.sample_weights[X_indices[i]]
                           * Xw[X_indices[i]])
-            grad[j] = (XjTXw - self.Xty[j]) / self.sample_weights.sum()
+            grad[j] = (XjTXw - self.Xtwy[j]) / self.sample_weights.sum()
         return grad
 
     def intercept_update_step(self, y, Xw):
